@@ -351,6 +351,11 @@ class RefSem:
                 if t.wait and u.kind == PENDING:
                     raise
                 return ABSENT
+            except EvalFault as e:
+                if not t.wait:
+                    # evaluated only if its dependency happens to be resolved at that moment: no verdict
+                    raise Unmodelled("soft-optional value that cannot be evaluated (%s)" % e)
+                raise
             return v if t.wait else Maybe(v)
         if isinstance(t, OrDisabled):
             r = t.ref
